@@ -29,9 +29,12 @@ LR == L \cup {"static"}             \* ... in the return type (no elision in ret
 \*   opqlt  &'1 OpLt<'2>         (implies '2: '1)
 \*   st1    St1<'1>              st2    St2<'1,'2>             st2b   St2b<'1,'2>  (definition: 'q: 'p, i.e. '2: '1)
 \*   nst2   Nst2<'1,'2>          a struct whose fields are themselves borrowing structs (St1<'p>, St2<'q,'q>)
+\*   pself  &'1 Self             a parameter typed with the `Self` KEYWORD inside `impl<'a,'b> Sf<'a,'b>` (self kind sf2b): it is
+\*                               `&'1 Sf<'a,'b>`, so 'a: '1 and 'b: '1 hold -- but, unlike for a spelled-out type, Diplomat does not
+\*                               add these bounds by itself: the method has to declare them
 \*   stv    StV<'1,'2>           { f: &'p OpLt<'q>, s: DiplomatSlice<'q, u8> }: one field mentions BOTH lifetimes; the field's type
 \*                               implies 'q: 'p on the definition (inferred by Rust, and by Diplomat: it must be restated)
-Slots(k) == IF k \in {"opq", "optopq", "slice", "st1"} THEN 1 ELSE 2
+Slots(k) == IF k \in {"opq", "optopq", "slice", "st1", "pself"} THEN 1 ELSE 2
 IsStruct(k) == k \in {"st1", "st2", "st2b", "nst2", "stv"}
 \* the struct definitions as data: for every field, which definition lifetimes its type mentions.  A host object made from a
 \* struct must hold on to field f for as long as anything borrowing for lifetime l lives, for every l that f's type mentions.
@@ -49,7 +52,7 @@ RSlots(k) == IF k \in {"rst2", "ropqlt"} THEN 2 ELSE 1
 
 Tuples(S, n) == IF n = 1 THEN {<<x>> : x \in S} ELSE {<<x, y>> : x \in S, y \in S}
 \* only the lifetime of a reference itself may be left anonymous; lifetime arguments of named types are written out
-PSlotDom(k) == CASE k \in {"opq", "optopq", "slice"} -> {<<x>> : x \in LS}
+PSlotDom(k) == CASE k \in {"opq", "optopq", "slice", "pself"} -> {<<x>> : x \in LS}
                  [] k = "opqlt" -> {<<x, y>> : x \in LS, y \in LR}
                  [] k = "st1" -> {<<x>> : x \in LR}
                  [] OTHER -> {<<x, y>> : x \in LR, y \in LR}
@@ -61,7 +64,12 @@ Self == (IF "none" \in SelfKinds THEN {[kind |-> "none", slots |-> <<>>]} ELSE {
         \cup (IF "sf2b" \in SelfKinds /\ {"a", "b"} \subseteq L THEN {[kind |-> "sf2b", slots |-> <<l, "a", "b">>] : l \in L \cup {"anon"}} ELSE {})
 Pairs == {<<x, y>> \in L \X L : x # y}                 \* <<x,y>> means  'x: 'y  (x outlives y)
 ParamSeqs == UNION {IF n = 1 THEN {<<p>> : p \in Param} ELSE {<<p, q>> : p \in Param, q \in Param} : n \in NParams}
-Sig == [decl : SUBSET Pairs, self : Self, params : ParamSeqs, ret : Ret]
+\* `Self` only means something with lifetimes inside the impl of the borrowing type
+PselfOK(s) == \A i \in 1..Len(s.params) : s.params[i].kind = "pself" => s.self.kind = "sf2b"
+Sig == {s \in [decl : SUBSET Pairs, self : Self, params : ParamSeqs, ret : Ret] : PselfOK(s)}
+\* bounds that hold because a parameter is `&'l Self` (Self = Sf<'a,'b>): true in Rust, NOT implied for Diplomat
+PselfImplied(s) == UNION {{<<"a", s.params[i].slots[1]>>, <<"b", s.params[i].slots[1]>>} :
+                            i \in {j \in 1..Len(s.params) : s.params[j].kind = "pself"}}
 
 \* ---- bounds ---------------------------------------------------------------------------------
 \* `&'x Named<'y..>` implies 'y: 'x   (only for references directly to a named type)
@@ -77,20 +85,23 @@ Named(R) == {pr \in R : pr[1] \in L /\ pr[2] \in L /\ pr[1] # pr[2]}
 RECURSIVE TC(_)
 TC(R) == LET R2 == R \cup {<<x, z>> \in L \X L : \E y \in L : <<x, y>> \in R /\ <<y, z>> \in R}
          IN IF R2 = R THEN R ELSE TC(R2)
-Outlives(s) == TC(Named(s.decl \cup RefImplied(s) \cup DefImplied(s)) \cup {<<l, l>> : l \in L})
+Outlives(s) == TC(Named(s.decl \cup RefImplied(s) \cup DefImplied(s) \cup PselfImplied(s)) \cup {<<l, l>> : l \in L})
 
 \* ---- the gate's last clause: bounds implied by definitions must be spelled out on the method ---
 \* ('static satisfies any bound; a bound between equal lifetimes is trivial; a bound already implied by
 \*  a reference type counts as stated)
 Spelled(s) == s.decl \cup RefImplied(s)
-MustRestate(s) == {pr \in DefImplied(s) : pr[1] \in L /\ pr[2] \in L /\ pr[1] # pr[2]}
+MustRestate(s) == {pr \in DefImplied(s) \cup PselfImplied(s) : pr[1] \in L /\ pr[2] \in L /\ pr[1] # pr[2]}
 \* "spelled out" = entailed by what is written on the method: the transitive closure of the declared bounds and
 \* of the bounds that reference types imply by themselves
 Accepted(s) == MustRestate(s) \subseteq TC(Named(Spelled(s)))
 
 \* ---- what must be kept alive ----------------------------------------------------------------
 PNames(s) == (IF s.self.kind = "none" THEN {} ELSE {"self"}) \cup {IF i = 1 THEN "x" ELSE "y" : i \in 1..Len(s.params)}
-PSlots(s, p) == IF p = "self" THEN s.self.slots ELSE IF p = "x" THEN s.params[1].slots ELSE s.params[2].slots
+PParam(s, p) == IF p = "x" THEN s.params[1] ELSE s.params[2]
+PSlots(s, p) == IF p = "self" THEN s.self.slots
+                ELSE IF PParam(s, p).kind = "pself" THEN PParam(s, p).slots \o <<"a", "b">>      \* &'l Sf<'a,'b>
+                ELSE PParam(s, p).slots
 PKind(s, p) == IF p = "self" THEN "self" ELSE IF p = "x" THEN s.params[1].kind ELSE s.params[2].kind
 SlotSet(t) == {t[i] : i \in 1..Len(t)}
 OutLts(s) == SlotSet(s.ret.slots) \cap L               \* non-static lifetimes of the return type
